@@ -6,7 +6,9 @@ Next == UNCHANGED x
 Spec == Init /\ [][Next]_x
 Lemmas == MethodAgrees /\ RouteTableOK
 AllVariants == {"cur", "ver", "src-other"}
-Vectors == {vv \in {[route |-> r.name, caller |-> c, variant |-> v, mut |-> r.mut] : r \in S3Routes, c \in Callers, v \in AllVariants} :
+Vectors == {vv \in {[route |-> r.name, caller |-> c, variant |-> v, mut |-> r.mut, stray |-> ""] : r \in S3Routes, c \in Callers, v \in AllVariants} :
                vv.variant \in Variants(Route(vv.route))}
+           \cup {[route |-> r.name, caller |-> c, variant |-> "stray", mut |-> TRUE, stray |-> s] :
+                    r \in {rr \in S3Routes : rr.mut}, c \in StrayCallers, s \in Strays}
 ASSUME Emit == ndJsonSerialize("vectors.ndjson", SetToSeq(Vectors))
 =============================================================================
